@@ -329,6 +329,9 @@ func (fr *Frame) callByContract(callee *ssa.Function, fc *FuncContract, args []V
 			}
 		}
 	}
+	if c.rel != nil {
+		c.rel.call(fr, callee, fc, args, pre, st, res, reach, line)
+	}
 	return res
 }
 
@@ -533,6 +536,9 @@ func (fr *Frame) external(callee *ssa.Function, x *ssa.Call, args []Val, st *Sta
 			qAbs(c, A, O, lAdd(O, r), func(j string) string { return sNot(sEq(sSel(A, j), ch)) }))
 		c.assume(sOr(notFound, found))
 		fr.lastIdx = r
+		if c.rel != nil {
+			c.rel.ext(fr, full, args, mk(x.Type(), r), reach)
+		}
 		return mk(x.Type(), r)
 	case "strings.Index":
 		c.usedAssumed[full+": first occurrence of the substring or -1"] = true
@@ -547,6 +553,9 @@ func (fr *Frame) external(callee *ssa.Function, x *ssa.Call, args []Val, st *Sta
 		j2 := c.fresh("qj")
 		pat := func(j string) string {
 			if c.patternable(s.C[0]) {
+				if mp := c.relMultiPattern(s, j, p); mp != "" {
+					return mp
+				}
 				return " :pattern ((select " + s.C[0] + " " + j + "))"
 			}
 			return ""
@@ -561,6 +570,9 @@ func (fr *Frame) external(callee *ssa.Function, x *ssa.Call, args []Val, st *Sta
 		found := sAnd("(<= 0 "+r+")", "(<= (+ "+r+" "+p.C[2]+") "+s.C[2]+")", absMatch(lAdd(s.C[1], r)),
 			wrap(j2, "(=> (and (<= "+s.C[1]+" "+j2+") (< "+j2+" "+lAdd(s.C[1], r)+")) (not "+absMatch(j2)+"))"))
 		c.assume(sOr(notFound, found))
+		if c.rel != nil {
+			c.rel.ext(fr, full, args, mk(x.Type(), r), reach)
+		}
 		return mk(x.Type(), r)
 	case "strings.Contains":
 		c.usedAssumed[full+": existence of the substring"] = true
@@ -572,10 +584,15 @@ func (fr *Frame) external(callee *ssa.Function, x *ssa.Call, args []Val, st *Sta
 		j1 := c.fresh("qj")
 		c.assume(sImp(b, sAnd("(<= "+s.C[1]+" "+w+")", "(<= "+w+" "+lastStart+")", fr.matchAbs(s, w, p))))
 		body := "(=> (and (<= " + s.C[1] + " " + j1 + ") (<= " + j1 + " " + lastStart + ")) (not " + fr.matchAbs(s, j1, p) + "))"
-		if c.patternable(s.C[0]) {
+		if mp := c.relMultiPattern(s, j1, p); mp != "" && c.patternable(s.C[0]) {
+			c.assume(sImp(sNot(b), "(forall (("+j1+" Int)) (! "+body+mp+"))"))
+		} else if c.patternable(s.C[0]) {
 			c.assume(sImp(sNot(b), "(forall (("+j1+" Int)) (! "+body+" :pattern ((select "+s.C[0]+" "+j1+"))))"))
 		} else {
 			c.assume(sImp(sNot(b), "(forall (("+j1+" Int)) "+body+")"))
+		}
+		if c.rel != nil {
+			c.rel.ext(fr, full, args, Val{K: KBool, T: x.Type(), C: []string{b}}, reach)
 		}
 		return Val{K: KBool, T: x.Type(), C: []string{b}}
 	case "strings.ToUpper", "strings.ToLower":
@@ -619,6 +636,9 @@ func (fr *Frame) external(callee *ssa.Function, x *ssa.Call, args []Val, st *Sta
 		c.assume(sImp("(and (= "+s.C[2]+" 1) (>= "+first+" 128))", "(and (= "+r.C[2]+" 3) (= (select "+r.C[0]+" 0) 239) (= (select "+r.C[0]+" 1) 191) (= (select "+r.C[0]+" 2) 189))"))
 		// the result is a function of the argument's content
 		c.recordCase(full, s, r)
+		if c.rel != nil {
+			c.rel.ext(fr, full, args, r, reach)
+		}
 		return r
 	case "strings.ReplaceAll":
 		c.usedAssumed[full+"(s, \"\\x00\", \"\"): s without NUL bytes (length bound and NUL-freedom only)"] = true
@@ -694,6 +714,29 @@ func (c *Ctx) recordCase(fn string, arg, res Val) {
 		c.caseCalls = map[string][][2]Val{}
 	}
 	c.caseCalls[fn] = append(c.caseCalls[fn], [2]Val{arg, res})
+}
+
+// relMultiPattern (mode R only): trigger a "no match at j" quantifier on all the bytes of the
+// candidate window, so that an instance never creates the term that triggers the next one (with
+// the two runs' relation bouncing terms between the copies, the single-term trigger loops).
+func (c *Ctx) relMultiPattern(s Val, j string, p Val) string {
+	if c.rel == nil {
+		return ""
+	}
+	n := int64(-1)
+	if p.Lit != nil {
+		n = int64(len(*p.Lit))
+	} else if k, ok := litInt(p.C[2]); ok {
+		n = k
+	}
+	if n < 2 || n > 12 {
+		return ""
+	}
+	var ts []string
+	for i := int64(0); i < n; i++ {
+		ts = append(ts, "(select "+s.C[0]+" "+lAdd(j, fmt.Sprint(i))+")")
+	}
+	return " :pattern (" + strings.Join(ts, " ") + ")"
 }
 
 // matchAbs: the pattern p occurs in s's backing array starting at absolute index j
